@@ -277,6 +277,11 @@ def _bounds(kind, f):
     return [gen.facet_native(kind, f[k]) for k in ('ge', 'gt', 'le', 'lt') if k in f]
 
 
+def _fullwidth(s):
+    """the same text with FULLWIDTH DIGITs: digits to Python's \\d and int(), not to XML Schema"""
+    return ''.join(chr(ord(c) - 0x30 + 0xff10) if '0' <= c <= '9' else c for c in s)
+
+
 def boundary_values(rng, t, exhaustive8=False, lexical=True):
     """[(value, label)] for a leaf slot: on, just inside and just outside every
     boundary of the declaration, plus null / absent / lexically ill-formed."""
@@ -313,6 +318,8 @@ def boundary_values(rng, t, exhaustive8=False, lexical=True):
         out += [(b, 'int') for b in sorted(bs)]
         if lexical:
             out += [(Raw('abc'), 'lexical'), (Raw('1.5'), 'lexical'), (Raw('12x'), 'lexical')]
+            # what Python's int() reads and the lexical space of xs:integer does not have: digit separators, digits of other scripts
+            out += [(Raw('1_0'), 'lexical_underscore'), (Raw('\u0661\u0662'), 'lexical_arabic_indic_digits'), (Raw('\uff11\uff12'), 'lexical_fullwidth_digits')]
     elif kind == 'Decimal':
         bs = set([D(0)])
         for k in ('ge', 'le'):
@@ -322,6 +329,7 @@ def boundary_values(rng, t, exhaustive8=False, lexical=True):
         out += [(b, 'decimal') for b in sorted(bs)]
         if lexical:
             out += [(Raw('abc'), 'lexical'), (Raw('1,5'), 'lexical')]
+            out += [(Raw('1_0'), 'lexical_underscore'), (Raw('\u0661.\u0662'), 'lexical_arabic_indic_digits'), (Raw('\uff11\uff12'), 'lexical_fullwidth_digits')]
     elif kind == 'Unicode':
         if 'values' in f:
             out += [(x, 'member') for x in f['values']] + [('zz-not-a-member', 'non_member')]
@@ -360,30 +368,34 @@ def boundary_values(rng, t, exhaustive8=False, lexical=True):
             out += [(b - 0.25, 'double_bound'), (b, 'double_bound'), (b + 0.25, 'double_bound')]
         if lexical:
             out += [(Raw('abc'), 'lexical')]
+            out += [(Raw('1_0'), 'lexical_underscore'), (Raw('\u0661\u0662'), 'lexical_arabic_indic_digits'), (Raw('\uff11.\uff12'), 'lexical_fullwidth_digits')]
     elif kind == 'DateTime':
         out += [(datetime.datetime(2020, 1, 2, 3, 4, 5), 'datetime')] if not _has_range(f) else []
         for b in _bounds(kind, f):
             out += [(b - datetime.timedelta(seconds=1), 'datetime_bound'), (b, 'datetime_bound'), (b + datetime.timedelta(seconds=1), 'datetime_bound'),
                     (b + datetime.timedelta(microseconds=1), 'datetime_bound'), (b - datetime.timedelta(microseconds=1), 'datetime_bound')]
         if lexical:
-            out += [(Raw('2020-13-01T00:00:00'), 'lexical'), (Raw('yesterday'), 'lexical')]
+            out += [(Raw('2020-13-01T00:00:00'), 'lexical'), (Raw('yesterday'), 'lexical'),
+                    (Raw(_fullwidth('2020-01-02T03:04:05')), 'lexical_fullwidth_digits'), (Raw(_fullwidth('2020-01-02T03:04:05.5+01:00')), 'lexical_fullwidth_digits'),
+                    (Raw('2020-01-02T03:04:05+\uff10\uff11:00'), 'lexical_fullwidth_digits')]
     elif kind == 'Date':
         out += [(datetime.date(2020, 1, 2), 'date')] if not _has_range(f) else []
         for b in _bounds(kind, f):
             out += [(b - datetime.timedelta(days=1), 'date_bound'), (b, 'date_bound'), (b + datetime.timedelta(days=1), 'date_bound')]
         if lexical:
-            out += [(Raw('2020-13-01'), 'lexical'), (Raw('01/02/2020'), 'lexical')]
+            out += [(Raw('2020-13-01'), 'lexical'), (Raw('01/02/2020'), 'lexical'), (Raw(_fullwidth('2020-01-02')), 'lexical_fullwidth_digits'),
+                    (Raw('2020-01-0\u0662'), 'lexical_arabic_indic_digits')]
     elif kind == 'Time':
         out += [(datetime.time(3, 4, 5), 'time')] if not _has_range(f) else []
         for b in _bounds(kind, f):
             base = datetime.datetime.combine(datetime.date(2000, 1, 1), b)
             out += [((base - datetime.timedelta(seconds=1)).time(), 'time_bound'), (b, 'time_bound'), ((base + datetime.timedelta(seconds=1)).time(), 'time_bound')]
         if lexical:
-            out += [(Raw('25:00:00'), 'lexical')]
+            out += [(Raw('25:00:00'), 'lexical'), (Raw(_fullwidth('03:04:05')), 'lexical_fullwidth_digits'), (Raw('03:04:0\u0665'), 'lexical_arabic_indic_digits')]
     elif kind == 'Duration':
         out += [(datetime.timedelta(seconds=5), 'duration')]
         if lexical:
-            out += [(Raw('5 seconds'), 'lexical')]
+            out += [(Raw('5 seconds'), 'lexical'), (Raw(_fullwidth('P1DT2H')), 'lexical_fullwidth_digits'), (Raw('PT1.\uff15S'), 'lexical_fullwidth_digits')]
     elif kind == 'Uuid':
         import uuid
         out += [(uuid.UUID(int=5), 'uuid')]
@@ -393,4 +405,26 @@ def boundary_values(rng, t, exhaustive8=False, lexical=True):
         out += [(b'ab', 'bytes')]
     elif kind == 'AnyUri':
         out += [('http://x/', 'uri')]
+    if lexical:
+        # a literal of the type with something before, after or inside it; the delimiters of the type alone
+        around = {'DateTime': ['2020-01-02T03:04:05', '2020-01-02T03:04:05Z', '2020-01-02T03:04:05+01:00', '2020-01-02T03:04:05.5'],
+                  'Date': ['2020-01-02', '2020-01-02Z', '2020-01-02+01:00'], 'Time': ['03:04:05', '03:04:05Z', '03:04:05+01:00', '03:04:05.5'],
+                  'Duration': ['P1DT2H', 'PT5S', '-P1Y', 'PT1.5S'], 'Uuid': ['12345678-1234-1234-1234-123456789012'], 'Boolean': ['true', '0'],
+                  'Double': ['1.5', '1e3', 'INF'], 'Decimal': ['1.5', '-2'], 'Integer': ['12'], 'Integer32': ['12'], 'UnsignedInteger8': ['12']}.get(kind, [])
+        for lit in around:
+            out += [(Raw(lit + 'junk'), 'lexical_trailing_text'), (Raw('junk' + lit), 'lexical_leading_text'), (Raw(lit + ' ' + lit), 'lexical_twice'),
+                    (Raw(lit + '\n.'), 'lexical_trailing_line')]
+        out += [(Raw(x), 'lexical_degenerate') for x in {'Duration': ['P', 'PT', '-P', 'P1D2H', 'PT1.S', 'P1DT', 'P-1D', 'PT1H1D', 'P1.5D'],
+                                                         'DateTime': ['2020-01-02T03:04:05.5.5', '2020-01-02T03:04:05.', '2020-01-02T03:04', '2020-01-02T', '2020-01-02',
+                                                                      '2020-01-02T03:04:05+01', '2020-01-02T03:04:05+0100', '2020-01-02T03:04:05z'],
+                                                         'Date': ['2020-01-02T00:00:00', '2020-1-2', '20200102', '2020-01-02+01'],
+                                                         'Time': ['03:04', '3:04:05', '03:04:05.', '030405'], 'Boolean': ['yes', 'tru', '01'],
+                                                         'Double': ['1.5.5', '1e', 'e3', '1,5', '0x1p3'],
+                                                         'Decimal': ['1.5.5', '1,5', '--1', '1-', 'INF', 'NaN'], 'Integer': ['1-', '--1', '+-1', '0x10', '1e3', '1.0']}.get(kind, [])]
+        # spellings that are not in the lexical space but denote the same values to every reader of the language spyne is written in
+        out += [(Raw(x), 'lexical_spelling_other_case') for x in {'Boolean': ['TRUE', 'True', 'False', 'FALSE']}.get(kind, [])]
+        out += [(Raw(x), 'lexical_spelling_python_float') for x in {'Double': ['inf', '-inf', 'nan', 'Infinity', '-Infinity', 'NAN']}.get(kind, [])]
+    for v_, _ in out:
+        if isinstance(v_, Raw):
+            v_.kind = kind          # (what the text was meant to be)
     return out
